@@ -47,6 +47,11 @@ ASSUMPTIONS = [
     "which the code promises the exact derivative; with an MPFA base the Jacobian is a "
     "documented approximation (TPFA-style derivative of the transmissibility) and is not "
     "a letter",
+    "3-d models with fractures additionally get the letters axis1 / axis2: tangential jump, "
+    "traction and their previous-time values aligned with one local tangential basis vector "
+    "(other component exactly 0.0) in sliding, sticking and open-compressive cells, all-zero "
+    "tangential vectors in the clearly open cells; arguments of non-smooth functions that "
+    "are switched off by an exact zero factor in their cell are not part of the kink margin",
     "finite differences: 6th-order central stencil, steps h in {1e-3, 1e-2, 1e-4}; a "
     "column is accepted when the best rung agrees to 1e-6*(|J|_max+1); measured floor on "
     "the unchanged tree <= 1e-10",
@@ -57,10 +62,12 @@ ASSUMPTIONS = [
 BOUNDS = {
     "quick": "2-d Cartesian, fracture subsets {} and {0} (+ one 3-d momentum balance with a "
     "fracture), 5 model families, fluid/law/gravity variants listed in _configs('quick'), "
-    "2 states, every column",
+    "2 states (+ 2 exact-zero-component states on the 3-d fractured momentum / poromechanics "
+    "configurations), every column",
     "thorough": "2-d Cartesian {} {0} {1} {0,1}; 2-d simplex {0} {2} {0,1,2}; 3-d cube {} {0}; "
     "non-matching unit square {0,1} (flow, mass+energy); "
-    "5 families x variants, 4-6 states (2 for poro/thm on the 3-fracture simplex grid), every column",
+    "5 families x variants, 4-6 states (2 for poro/thm on the 3-fracture simplex grid; + 2 "
+    "exact-zero-component states on every 3-d fractured mechanics configuration), every column",
 }
 MIN_CLASSES = 4
 CHUNK = 1
@@ -95,8 +102,10 @@ def _configs(tier):
     if tier == "quick":
         out += [_cfg("flow", 2, []), _cfg("flow", 2, [0], grav=True), _cfg("flow", 2, [0], fluid="incomp")]
         out += [_cfg("mae", 2, []), _cfg("mae", 2, [0], grav=True)]
-        out += [_cfg("mom", 2, []), _cfg("mom", 2, [0]), _cfg("mom", 2, [0], laws="rich", grav=True), _cfg("mom", 3, [0])]
-        out += [_cfg("poro", 2, [0]), _cfg("poro", 2, [0], laws="rich", grav=True), _cfg("poro", 2, [0], laws="adtpfa")]
+        out += [_cfg("mom", 2, []), _cfg("mom", 2, [0]), _cfg("mom", 2, [0], laws="rich", grav=True), _cfg("mom", 3, [0]),
+                _cfg("mom", 3, [0], laws="rich")]
+        out += [_cfg("poro", 2, [0]), _cfg("poro", 2, [0], laws="rich", grav=True), _cfg("poro", 2, [0], laws="adtpfa"),
+                _cfg("poro", 3, [0])]
         out += [_cfg("thm", 2, [0]), _cfg("thm", 2, [0], laws="rich", grav=True)]
         return out
     geoms = [(2, [], "cart"), (2, [0], "cart"), (2, [1], "cart"), (2, [0, 1], "cart"),
@@ -122,7 +131,19 @@ def _configs(tier):
     return out
 
 
+def _aligned(cfg):
+    """Exact-zero letters: 3-d models with fractures and contact mechanics (two tangential
+    components per fracture cell)."""
+    if cfg["dim"] == 3 and cfg["fracs"] and cfg["fam"] in ("mom", "poro", "thm"):
+        return list(G.ALIGNED_LETTERS)
+    return []
+
+
 def _letters(tier, cfg):
+    return _base_letters(tier, cfg) + _aligned(cfg)
+
+
+def _base_letters(tier, cfg):
     if tier == "quick":
         return ["wave-0.3", "lin-1"]
     if len(cfg["fracs"]) == 3 and cfg["fam"] in ("poro", "thm"):
@@ -167,6 +188,9 @@ def _prepare(cfg, letter):
         _STATE["data"] = data
         return data
     data["ind"] = ind = G.indicators(model, x0)
+    data["zeros"] = G.exact_zero_report(model, x0)
+    if letter in G.ALIGNED_LETTERS and min(data["zeros"]) == 0:
+        raise RuntimeError(f"aligned state {letter} has no exact zero component: {data['zeros']}")
     try:
         J, b = es.assemble(state=x0)
         data["J"] = J.tocsc()
@@ -217,7 +241,7 @@ def run_case(case) -> Outcome:
         out.ev("skipped:inadmissible-state")
         out.extra["skipped_states"] = 1
         return out
-    mg = G.margin(d["ind"])
+    mg = G.margin(d["ind"], dilation=cfg["laws"] == "rich")
     if mg < MARGIN:
         out.ev("skipped:kink-margin")
         out.extra["skipped_states"] = 1
@@ -237,7 +261,8 @@ def run_case(case) -> Outcome:
             out.ev("VIOLATION:rhs")
         else:
             regs = sorted(set(G.regime_names(d["ind"])))
-            out.ev("rhs-consistent|" + ("regimes:" + ",".join(regs) if regs else "no-contact"))
+            tag = "|exact-zero-components" if letter in G.ALIGNED_LETTERS else ""
+            out.ev("rhs-consistent|" + ("regimes:" + ",".join(regs) if regs else "no-contact") + tag)
     names = _var_of_dof(es)
     worst = 0.0
     for j in range(case["shard"], n, case["nshard"]):
